@@ -23,10 +23,11 @@ RULE = (
 ASSUMPTIONS = ["oracle: vf/oracle/pins.py (Fractions); known finding K3 recognised only by buggy-model replay of the word matcher"]
 REQUIRED = ["calls.PinWords.pinword_to_perm", "calls.PinWordUtil.call", "calls.PinWords.sp_to_m", "calls.PinWords.m_to_sp", "calls.PinWords.quadrant",
             "calls.PinWords.factor_pinword", "calls.PinWords.pinword_occurrences_sp", "calls.PinWords.pinword_contains", "tables.checked",
-            "containment.decided", "containment.positive", "hook.numeral_pins", "hook.direction_pins"]
+            "containment.decided", "containment.positive", "hook.numeral_pins", "hook.direction_pins", "aliasing.factor_list_mutated", "faults.injected"]
 MIN_NONTRIVIAL = 500
 CTX = None
 MON = None
+FAULTS = None
 
 
 def report(check, args, detail, known=None):
@@ -45,6 +46,8 @@ def words_of(sigma):
 
 def post_to_perm(args, kwargs, res, exc):
     word = args[0]
+    if isinstance(exc, monitor.InjectedFault):
+        return
     CTX.ev()
     try:
         want = operm(word)
@@ -167,9 +170,15 @@ def setup(ctx):
     m.wrap(PinWords, "is_strict_pinword", post_strict)
     m.wrap_gen(PinWords, "pinword_occurrences_sp", done_occ_sp)
     m.wrap(PinWords, "pinword_contains", post_contains)
+    global FAULTS
+    import permuta.permutils.pin_words as PWM
+    import permuta.permutils.pinword_util as PWU
+
+    FAULTS = monitor.FaultInjector(monitor.module_code_objects(PWM, "pin_words.py") + monitor.module_code_objects(PWU, "pinword_util.py"))
 
 
 def teardown(ctx):
+    FAULTS.close()
     MON.uninstall()
 
 
@@ -182,6 +191,12 @@ def chk_word(ctx, w):
     ctx.ev()
     if "".join(fs) != w or any(f[0] not in P.QUADS for f in fs if w):
         report("word", [w], f"factors {fs} do not concatenate back / are not numeral-led")
+    # aliasing: a caller that reorders / empties a returned factor list must not change later answers
+    fs.sort(reverse=True)
+    del fs[:1]
+    CTX.count("aliasing.factor_list_mutated")
+    PinWords.factor_pinword(w)
+    ms = list(PinWords.sp_to_m(w)) if P.is_strict(w) and w else []
     for i in range(len(w)):
         PinWords.quadrant(w, i)
     PinWords.is_strict_pinword(w)
@@ -260,11 +275,20 @@ def chk_containment(ctx, w, sigma):
             report("contain", [w, list(sig)], f"pinword_occurrences / pinword_contains disagree for {u!r} in {w!r}")
 
 
-CHECKS = {"word": chk_word, "strict": chk_strict, "mword": chk_mword, "tables": chk_tables, "contain": chk_containment}
+def chk_table_fault(ctx, n, k):
+    """error path: the FIRST request of a table for a length is aborted at a failpoint; the tables must be right afterwards"""
+    for fn in (PinWords.perm_to_pinword_mapping, PinWords.pinword_to_perm_mapping, PinWords.perm_to_strict_pinword_mapping):
+        if monitor.with_fault(FAULTS, k, lambda: fn(n)):
+            ctx.count("faults.injected")
+    chk_tables(ctx, n)
+
+
+CHECKS = {"tablefault": chk_table_fault, "word": chk_word, "strict": chk_strict, "mword": chk_mword, "tables": chk_tables, "contain": chk_containment}
 
 
 def plan(tier, seed):
     specs = [{"name": "tables", "kind": "tables", "nmax": 5 if tier == "quick" else 6}]
+    specs += [{"name": f"tablefault-{i}", "kind": "tablefault", "k": k} for i, k in enumerate([3, 40, 700, 5000] if tier == "quick" else [1, 3, 17, 40, 333, 700, 2500, 5000, 12000])]
     wmax = 4
     parts = 16
     specs += [{"name": f"contain-{i}", "kind": "contain", "wmax": wmax, "part": i, "parts": parts,
@@ -274,6 +298,12 @@ def plan(tier, seed):
 
 def run(ctx, spec):
     rng = ctx.rng
+    if spec["kind"] == "tablefault":
+        # a fresh process per failpoint: the tables are memoised for the life of the process
+        for n in (2, 3, 4, 5):
+            chk_table_fault(ctx, n, spec["k"] * (1 if n < 5 else 3))
+        ctx.sample({"table_request_aborted_at_statement": spec["k"]})
+        return
     if spec["kind"] == "tables":
         for n in range(spec["nmax"] + 1):
             chk_tables(ctx, n)
